@@ -90,6 +90,7 @@ def range_validators(prog, ev):
             continue
         if iv is not None and iv[0] != -float("inf") and iv[1] != float("inf"):
             out[p] = (int(iv[0]), int(iv[1]))
+            prog.looked_up.add(p)
     return out
 
 
@@ -202,6 +203,57 @@ def all_int_slots_validated(prog, ev):
     labels = {s[0] for s in sites}
     need = {"Selector::Index.0", "Selector::Slice.0", "Selector::Slice.1", "Selector::Slice.2", "SingularQuerySegment::Index.0"}
     return ok and need <= labels, sites
+
+
+# ------------------------------------------------------------------------------------------------ literals
+def literal_exact(prog, ev, rep, rid):
+    """A literal of the query denotes exactly the value written: Literal::process hands the payload of each variant to
+    the data type unchanged (Int -> From<i64>, Float -> From<f64>, String -> From<&str>, Bool -> From<bool>, Null ->
+    null()), unconditionally: no cast, arithmetic or guard in between (a whole-valued float that is turned into an integer
+    saturates at 2^63 and changes representation-sensitive equality)."""
+    rep.rule(rid, "literals denote exactly the value written: impl Query for Literal hands each variant's payload to the data type "
+             "unchanged and unconditionally (no cast, arithmetic, rounding or guard between the AST and T::from)")
+    try:
+        lp = prog.impl_method("crate::query::Query", M + "Literal", "process")
+    except Exception:
+        rep.unrecognised(rid, "Literal::process", "-", "impl Query for Literal not found"); return
+    t = ev.summary(lp)
+    where = prog.loc_of(lp)
+    ms = [x for x in subterms(t) if x.k == "match" and x.a[0].k == "param" and x.a[0].a[0] == 0]
+    if not ms:
+        rep.unrecognised(rid, "Literal::process", where, "no match on the literal: %s" % str(t)[:160]); return
+    m = ms[0]
+    seen = {}
+    for pat, guard, body in m.a[1]:
+        p = pat
+        while p.get("k") in ("Deref", "DerefPattern"):
+            p = p["sub"]
+        vn = p.get("variant") if p.get("k") == "Variant" else None
+        if vn is None:
+            rep.unrecognised(rid, "Literal/<catch-all>", where, "literal handled by a catch-all arm"); continue
+        ok = guard is None
+        why = "arm has a guard `%s`" % guard if guard is not None else ""
+        if ok and vn == "Null":
+            ok = body.k == "call" and body.a[0].endswith("::null")
+            why = "null literal is `%s`" % body
+        elif ok:
+            ok = body.k == "call" and body.a[0].endswith("core::convert::Into<U>>::into") and len(body.a) == 2
+            if ok:
+                a = body.a[1]
+                while a.k == "call" and len(a.a) == 2 and a.a[0].rsplit("::", 1)[-1] in ("as_str", "deref", "as_ref", "borrow", "clone"):
+                    a = a.a[1]
+                ok = a.k == "proj" and a.a[1].endswith("Literal::%s.0" % vn) and a.a[0] == m.a[0]
+            why = "the %s literal is converted as `%s`" % (vn, body)
+        key = "Literal::%s" % vn
+        if key in seen:
+            ok = False
+            why = "two arms for %s literals (the earlier one is conditional)" % vn
+        seen[key] = True
+        rep.check(ok, rid, key, where, "payload handed over unchanged",
+                  "a %s literal does not denote the value written: %s" % (vn, why))
+    for vn, _ in tables.variants_of(prog, M + "Literal") or []:
+        if "Literal::%s" % vn not in seen:
+            rep.bad(rid, "Literal::%s" % vn, where, "no arm for %s literals" % vn)
 
 
 # ------------------------------------------------------------------------------------------------ roles
